@@ -202,13 +202,25 @@ func NewProofCommit(key *gabikeys.PublicKey, witn *Witness, randomizer *big.Int)
 // SetExpected sets certain values of the proof to expected values, inferred from the containing proofs,
 // before verification.
 func (p *Proof) SetExpected(pk *gabikeys.PublicKey, challenge, response *big.Int) error {
+	if p.Responses == nil || p.Cr == nil || p.Cu == nil || p.SignedAccumulator == nil {
+		return errors.New("malformed nonrevocation proof")
+	}
+	if pk.G == nil || pk.H == nil || pk.ECDSA == nil {
+		return errors.New("public key does not support revocation")
+	}
 	acc, err := p.SignedAccumulator.UnmarshalVerify(pk)
 	if err != nil {
 		return err
 	}
+	if acc.Nu == nil {
+		return errors.New("malformed accumulator")
+	}
 	p.Nu = acc.Nu
 	p.Challenge = challenge
 	p.Responses["alpha"] = response
+	if !proofstructure.verifyProofStructure((*proof)(p)) {
+		return errors.New("malformed nonrevocation proof")
+	}
 	return nil
 }
 
@@ -218,7 +230,7 @@ func (p *Proof) ChallengeContributions(key *gabikeys.PublicKey) []*big.Int {
 }
 
 func (p *Proof) VerifyWithChallenge(pk *gabikeys.PublicKey, reconstructedChallenge *big.Int) bool {
-	if !proofstructure.verifyProofStructure((*proof)(p)) {
+	if p.SignedAccumulator == nil || reconstructedChallenge == nil || !proofstructure.verifyProofStructure((*proof)(p)) {
 		return false
 	}
 	if (*proof)(p).ProofResult("alpha").Cmp(Parameters.bTwoZk) > 0 {
@@ -229,7 +241,7 @@ func (p *Proof) VerifyWithChallenge(pk *gabikeys.PublicKey, reconstructedChallen
 		return false
 	}
 	p.acc = acc
-	if p.Nu.Cmp(p.acc.Nu) != 0 {
+	if p.acc.Nu == nil || p.Nu.Cmp(p.acc.Nu) != 0 {
 		return false
 	}
 	return p.Challenge.Cmp(reconstructedChallenge) == 0
